@@ -220,6 +220,29 @@ theorem explicit_none_flags_copied_from_source {r r' : Registry} {a : CatArgs} {
       simp only [inheritFlags, ht, hg, ↓reduceIte] at this
       exact this
 
+/-- **contradictory limits are never registered — a ZERO-valued limit is a limit**: an `AddCategory` that
+gives both limits with `max_value < min_value` (whatever the two numbers are: `min_value=0, max_value=-5`
+and `min_value=5, max_value=0` included; with or without `override`, `from_category`, a default value) is
+rejected in every registry and leaves the registry exactly as it was -/
+theorem contradictory_limits_rejected (r : Registry) (a : CatArgs) {lo hi : Rat} (hmin : a.minV = some lo)
+    (hmax : a.maxV = some hi) (h : hi < lo) :
+    (∃ e, (step lg r (.addCategory a)).2 = .error e) ∧ (step lg r (.addCategory a)).1 = r := by
+  have hl : limitsInverted a.minV a.maxV = true := by simp [limitsInverted, hmin, hmax, h]
+  have key : ∃ e, addCategory lg r a = (r, .error e) := by
+    unfold addCategory
+    cases a.category with
+    | none => exact ⟨_, rfl⟩
+    | bad => exact ⟨_, rfl⟩
+    | str c =>
+      simp only [hl]
+      by_cases h1 : (truthy a.fromCat && truthy a.qtype) = true
+      · exact ⟨.value, by simp [h1]⟩
+      · by_cases h2 : (!a.override && (catGet r.cats c).isSome) = true
+        · exact ⟨.units, by simp [h1, h2]⟩
+        · exact ⟨.value, by simp [h1, h2]⟩
+  obtain ⟨e, he⟩ := key
+  simp [step, he]
+
 /-- two databases sharing the category 5 over the quantity type 1 with different units (database 0:
 units 2, 3; database 1: units 2, 4), used alternately: database 1 refuses (5, 3), database 0 builds it -/
 def twoDatabases : List (Nat × COp) :=
